@@ -152,6 +152,18 @@ ExtraCases == <<
   XC(<<FnDecl("three", <<>>, WInt, <<Ret(H(3))>>), Set("x", H(3)),
        Set("r1", Match(V("x"), <<ArmVal(<<CallE(V("three"), <<>>)>>, I(1)), ArmTy("n", WInt, I(2))>>)),
        Set("r2", Match(H(4), <<ArmVal(<<CallE(V("three"), <<>>)>>, I(1)), ArmTy("n", WInt, I(2))>>)), TupE(<<V("r1"), V("r2")>>)>>, T2V(1, 2)),
+  \* the hidden element type of an array literal is that of its VALUES, also when an element is a constant expression
+  \* whose static type is wider than its value
+  XC(<<Set("mixed", Hide(WArr(IF_), ArrE(<<I(1), F(5)>>))), Set("ar", ArrE(<<At(V("mixed"), I(0))>>)),
+       Set("r1", IfSet("q", WArr(WInt), V("ar"), I(1), I(0))),
+       Set("ar2", Block(<<Set("x", At(V("mixed"), I(0))), ArrE(<<V("x"), I(8)>>)>>)),
+       Set("r2", Match(V("ar2"), <<ArmTy("q", WArr(WInt), I(1)), ArmOther(I(0))>>)), TupE(<<V("r1"), V("r2")>>)>>, T2V(1, 1)),
+  XC(<<Set("ar", ArrE(<<At(ArrE(<<I(1), F(5)>>), I(0))>>)), Set("r1", IfSet("q", WArr(WInt), V("ar"), I(1), I(0))),
+       Set("ar2", RepE(At(ArrE(<<I(1), F(5)>>), I(0)), I(2))), Set("r2", IfSet("q", WArr(WInt), V("ar2"), I(1), I(0))),
+       TupE(<<V("r1"), V("r2")>>)>>, T2V(1, 1)),
+  XC(<<Set("tp", TupE(<<At(ArrE(<<I(1), F(5)>>), I(0)), I(2)>>)), Set("r1", IfSet("q", WTup(<<WInt, WInt>>), V("tp"), I(1), I(0))),
+       Set("st", StructE(<< <<"a", At(ArrE(<<I(1), F(5)>>), I(0))>> >>)), Set("r2", IfSet("q", StA, V("st"), I(1), I(0))),
+       TupE(<<V("r1"), V("r2")>>)>>, T2V(1, 1)),
   \* guards
   XC(<<Set("x", H(0)), Set("r1", Guard("x", 3)), Set("x", H(2)), Set("r2", Guard("x", 3)), TupE(<<V("r1"), V("r2")>>)>>, T2V(3, 5)),
   XC(<<Set("x", H(0)), Set("k", MutE(WInt, I(7))),
